@@ -18,6 +18,8 @@ func init() {
 }
 
 func runC02(w *World, r *Report) {
+	// a drop-partition message that was signalled is also re-addressed and emitted
+	defer c04SignalOnlyEmitted(w, r, "C02-R10")
 	r.Rule("C02-R1", "rewrite completeness per message type", "every path from the arm to the local append passes stores CollectionID<-info.CollectionID, ShardName<-info.VChannel (Insert/Delete), PartitionID<-getPartitionID (Insert, DropPartition; Delete under the name test), PartitionIDs<-getPartitionIDs (Import); info = getCollectionTargetInfo(sourceCollectionID)", 10)
 	r.Rule("C02-R2", "positions name the downstream channel, keep the source id", "SetPosition literal: ChannelName<-info.PChannel|info.VChannel, MsgID/MsgGroup<-the original position; pack positions: cloned by copyMsgPositions, ChannelName<-r.targetPChannel before the non-forward return", 7)
 	r.Rule("C02-R3", "copy before write for dispatcher-shared messages", "DropCollection/DropPartition arms: field writes only on the value returned by copyDropTypeMsg", 2)
